@@ -431,7 +431,7 @@ func c06Run(b core.Batch, r *core.Recorder) {
 func c06Plan(tier string, seed int64) []core.Batch {
 	depth, rnd := 3, 60
 	if tier == "thorough" {
-		depth, rnd = 5, 6000
+		depth, rnd = 4, 20000
 	}
 	var bs []core.Batch
 	for _, be := range []string{"memory", "file"} {
